@@ -3,11 +3,11 @@
 \* flat documents of sibling elements, the two-selector pool, the fan-out state machine that
 \* lets 16 TLC workers evaluate batches side by side, and the emitted record.
 \*
-\* One TLC state with b > 0 = one document (batch b of the configuration's case list).  For every
+\* One TLC state with b > 0 = one document doc (batch b of the configuration's case list).  For every
 \* document TLC prints the document and the specification's answer: the ids in :in-range, the ids
 \* in :out-of-range and the ids whose strings lie in an underdetermined zone (not gated).
 EXTENDS CssDecl, TLC, Json, SequencesExt
-VARIABLE b
+VARIABLES b, doc
 
 \* ---- strings ---------------------------------------------------------------
 Pad(n, w) == [k \in 1..w |-> 48 + ((n \div (10 ^ (w - k))) % 10)]
@@ -54,7 +54,8 @@ MkDoc(cs, xml, nsu) ==
 AsMin(t, s, small) == In(Some(t), Some(s), Missing, Some(small))
 AsMax(t, s, big) == In(Some(t), Missing, Some(s), Some(big))
 AsVal(t, s, big) == In(Some(t), Some(big), Missing, Some(s))
-Probes3(t, s, small, big) == {AsMin(t, s, small), AsMax(t, s, big), AsVal(t, s, big)}
+Probe(p, t, s, small, big) == IF p = 1 THEN AsMin(t, s, small) ELSE IF p = 2 THEN AsMax(t, s, big) ELSE AsVal(t, s, big)
+\* (sets of probes are written {Probe(p, ..) : p \in 1..3, ..}: TLC's UNION of many small sets is quadratic)
 
 \* ---- the pool ----------------------------------------------------------------
 Cx1(c) == [cs |-> <<c>>, cb |-> <<>>]
@@ -67,7 +68,8 @@ G == 16
 NumBatches(n, size) == (n + size - 1) \div size
 BatchOf(cases, size, k) == SubSeq(cases, (k - 1) * size + 1, IF k * size < Len(cases) THEN k * size ELSE Len(cases))
 \* 0 -> -1 .. -G -> first batch of each lane -> every G-th batch after it
-BInit == b = 0
+NoDoc == EmptyDoc("doc", FALSE)
+BInit == b = 0 /\ doc = NoDoc
 BNext(nb) == \/ b = 0 /\ b' \in {0 - g : g \in 1..G}
              \/ b < 0 /\ 0 - b <= nb /\ b' = 0 - b
              \/ b > 0 /\ b + G <= nb /\ b' = b + G
